@@ -275,4 +275,32 @@ theorem sorted_of_genList (s e : Int → Int) (dstTi stdTi : Nat) (L y0 : Int)
     obtain ⟨_, mb⟩ := mb
     exact hr _ ma _ mb
 
+/-- a year pair of two different instants is time-sorted -/
+theorem pairList_pairwise (dstTi stdTi : Nat) (L a b : Int) (hab : a ≠ b) :
+    (Ru.pairList dstTi stdTi L a b).Pairwise (fun x y => x.unixTime < y.unixTime) := by
+  unfold Ru.pairList
+  by_cases h : a < b
+  · simp only [h, if_true]
+    split <;> (try split) <;> simp [h]
+  · simp only [h, if_false]
+    split <;> (try split) <;> simp <;> omega
+
+/-- the generated part of a chain is time-sorted -/
+theorem genList_pairwise {s e : Int → Int} (c : Chain s e) (dstTi stdTi : Nat) (L y0 : Int) :
+    (genList s e dstTi stdTi L y0).Pairwise (fun a b => a.unixTime < b.unixTime) := by
+  unfold genList
+  rw [List.pairwise_flatMap]
+  refine ⟨fun k _ => pairList_pairwise _ _ _ _ _ (c.ne _), ?_⟩
+  refine List.Pairwise.imp ?_ List.pairwise_lt_range
+  intro k1 k2 hk x hx y hy
+  have ix : Inst s e (y0 + (k1 : Int)) x.unixTime := by
+    rcases (mem_pairList _ _ _ _ _ _).1 hx with h | h
+    · left; rw [h.1]
+    · right; rw [h.1]
+  have iy : Inst s e (y0 + (k2 : Int)) y.unixTime := by
+    rcases (mem_pairList _ _ _ _ _ _).1 hy with h | h
+    · left; rw [h.1]
+    · right; rw [h.1]
+  exact c.lt (by omega) ix iy
+
 end Cctz.Rg
